@@ -6,7 +6,7 @@ ID = 'C07'
 N = {'quick': 1500, 'thorough': 12000}
 SEARCH_N = {'quick': 800, 'thorough': 4000}
 SHARD = 125
-RULE = ('float cells of masked and plain variables (f4, f8) include nan, +inf, -inf, -0.0 and denormals, compared by bit pattern; in-memory files: 1..3 dimensions (lengths 1..4, 0..2 unlimited, used or unused), 1..4 variables of rank 0..3 over dtypes '
+RULE = ('fill values include 0, 0.0 and -0.0 in every branch of the fill precedence (missing_value / fill_value / array fill / _FillValue); float cells of masked and plain variables (f4, f8) include nan, +inf, -inf, -0.0 and denormals, compared by bit pattern; in-memory files: 1..3 dimensions (lengths 1..4, 0..2 unlimited, used or unused), 1..4 variables of rank 0..3 over dtypes '
         'b B h H i I q Q f d c (restricted to b h i f d c for the three classic flavours), plain and masked variables with fill given by '
         'the masked array alone / missing_value / fill_value / both equal / both different / a hidden _FillValue, unmasked cells equal to the '
         'fill (adversarial), global and variable attributes of kind str / int / float / int array / float array / bool; every case is saved '
@@ -76,6 +76,9 @@ def _cellval(rng, dt):
 
 
 def _fillval(rng, dt):
+    # zero-valued fills (falsy in Python): 0, 0.0, -0.0 - alone and in every combination of the fill attributes
+    if rng.random() < 0.3:
+        return rng.choice([0.0, -0.0, 0.0]) if dt in 'fd' else 0
     if dt in 'fd':
         return rng.choice([-999.0, -9999.0, 1e20, -5.0, 9.5])
     if dt in 'bB':
@@ -137,6 +140,8 @@ def gen(rng, n, tier):
                     if not any(c is None for c in v['cells']):
                         v['cells'][rng.randrange(size)] = None
                 fillv = _fillval(rng, dt)
+                if rank == 0 and fillv == 0 and dt in 'fd':
+                    fillv = 0.0      # netCDF4 stores +0.0 for a masked SCALAR whose fill is -0.0 (same mask on read; raw sign differs)
                 v['mafill'] = fillv
                 if mode in ('mv', 'both-eq', 'both-diff'):
                     v['mv'] = fillv
